@@ -50,6 +50,10 @@ def C():
 # =========================================================================== building
 def leaf_cls(kid):
     m = len(kid["ins"])
+    if kid.get("fn") == "list":
+        return C().LinList
+    if kid.get("fn") == "sum":
+        return C().SumList
     if kid.get("chk"):
         return {1: nodes.Chk1, 2: nodes.Chk2}[m]
     return nodes.LIN[m]
@@ -124,7 +128,7 @@ def build(case, with_executors=True, pools=None):
             if inp[0] == "n":
                 for u in reversed(inp[1]):       # lowest priority first: the newest connection wins
                     up = kids[u]
-                    first_out = next(iter(up.outputs))
+                    first_out = up.outputs["y"] if "y" in up.outputs.labels else next(iter(up.outputs))
                     node.inputs[labels[j]].connect(first_out)
         if with_executors:
             if kid.get("ex"):
@@ -180,6 +184,8 @@ def node_kind(node):
         return "chk"
     if name == "UserInput":
         return "id"
+    if name in ("LinList", "SumList"):
+        return "lin"
     return "other:" + name
 
 
@@ -187,6 +193,8 @@ def val(v):
     from pyiron_workflow.channels import NOT_DATA
     if v is NOT_DATA:
         return None
+    if isinstance(v, list) and all(isinstance(x, int) and not isinstance(x, bool) for x in v):
+        return ["list"] + v
     if isinstance(v, bool) or not isinstance(v, int):
         return ["?", type(v).__name__]
     return v
@@ -202,6 +210,16 @@ def live_maps(root):
     return nmap, cmap
 
 
+def ex_code(ex, exmap):
+    """executor setting -> [0,0] none | [1,id] live instance | [2,id] construction instructions"""
+    if ex is None:
+        return [0, 0]
+    if isinstance(ex, tuple):
+        name = getattr(ex[0], "__name__", "")
+        return {"get_pbe": [2, 2], "ThreadPoolExecutor": [2, 6], "CloudpickleProcessPoolExecutor": [2, 7]}.get(name, [9, 9])
+    return exmap.get(id(ex), [9, 9])
+
+
 def render(root, exmap):
     """canonical observation of the live object graph (the model renders its heap the same way)"""
     from pyiron_workflow.nodes.composite import Composite
@@ -213,8 +231,7 @@ def render(root, exmap):
             path_ok = 1 if lp == path else ["WRONG", lp]
         except ValueError:
             path_ok = 0
-        ex = node.executor
-        exid = exmap.get(id(ex), [9, 9]) if ex is not None else [0, 0]
+        exid = ex_code(node.executor, exmap)
         chans = []
         for pc, chs in panels(node):
             for ch in chs:
@@ -287,9 +304,8 @@ def reflect(root, exmap):
             kids = [nid[id(c)] for c in node.children.values()]
             starting = [nid[id(s)] for s in node.starting_nodes]
         par = None if node.parent is None else nid[id(node.parent)]
-        ex = node.executor
-        e = exmap.get(id(ex)) if ex is not None else [0, 0]
-        if e is None:
+        e = ex_code(node.executor, exmap)
+        if e[0] == 9:
             return None
         etxt = "ExNone" if e[0] == 0 else f"({'ExInst' if e[0] == 1 else 'ExInstr'} {cn(e[1])})"
         ntxt.append(f"({cn(nid[id(node)])}, mkNode {cs(node.label)} {KINDC[k]} {lib.copt(par, cn)} "
@@ -306,18 +322,14 @@ def find_owner_of_future(root, fut):
     return None, None
 
 
-def node_inputs(node):
-    return list(node.inputs)          # for a workflow: the rebuilt view onto its children's open inputs
-
-
 def probe_node(path, node, probes):
-    for ch in node_inputs(node):
+    for key, ch in list(node.inputs.items()):      # for a workflow: the rebuilt view onto its children's open inputs
         try:
             ch.value = ch.value
             r = "ok"
         except RuntimeError:
             r = "RuntimeError"
-        row = [path, ch.label, r]
+        row = [path, key, r]
         if row not in probes:
             probes.append(row)
 
@@ -444,7 +456,8 @@ def run_flow(case):
         exmap = exmap_of(placed)
         heap = reflect(wf, exmap)
         case["_heap"] = None if heap is None else heap[0]
-        snap = snapshot(wf, placed)
+        shipped = [p for p, sp in crossing(case)]
+        snap = snapshot(wf, [pl for pl in placed if not any(pl[0].startswith(q + "/") for q in shipped)])
         probes = []
         order = case.get("order", [])
         do_probe = bool(case.get("probe")) and not real
@@ -563,13 +576,24 @@ def run_cycle(case):
     heap = reflect(root, exmap)
     case["_heap"] = None if heap is None else heap[0]
     case["_target"] = None if heap is None else heap[1][id(X)]
-    placed_x = [p for p in placed if p[1] is X]
+    placed_x = [(xp, n, sp, ex) for (xp, n, sp, ex) in placed if n is X]
+    if root is X:
+        placed_x = [("/" + X.label, n, sp, ex) for (xp, n, sp, ex) in placed_x]
     snap = snapshot(root, placed_x)
     log = []
-    delivered = []      # after every successful completion: (outputs shown, outputs a local run gives for the inputs shown)
+    recs = []           # per op: [out before the op, running after, failed after, jobs pending after]
+    delivered = []      # per completion: [succeeded, outputs shown, what a local run gives for the inputs shown]
     xpath = "/" + root.label if root is X else f"/wf/n{t}"
     nodes.CALLS.clear()
+
+    def first_pending():
+        pend = c.pending()
+        if not pend:
+            return False
+        pend[0][0].complete(pend[0][1])
+        return True
     for op in case["ops"]:
+        out_before = len(c.pending()) > 0
         if op[0] == "set":
             try:
                 X.inputs[op[1]].value = op[2]
@@ -587,15 +611,561 @@ def run_cycle(case):
             if not pend:
                 log.append("none")
             else:
-                was_failed = X.failed
-                pend[0][0].complete(pend[0][1])
-                # nested instruction executors inside the far side finish on their own schedule
+                with nodes.poll_hook(first_pending):     # executors that exist only on the far side
+                    pend[0][0].complete(pend[0][1])
                 log.append("done")
-                if not X.failed and not X.running:
-                    delivered.append([[[ch.label, val(ch.value)] for ch in X.outputs], shown_reference(case, X)])
+                delivered.append([not X.failed and not X.running, [[ch.label, val(ch.value)] for ch in X.outputs],
+                                  shown_reference(case, X)])
         elif op[0] == "clear":
             X.failed = False
             log.append("ok")
+        recs.append([out_before, bool(X.running), bool(X.failed), len(c.pending())])
     lost = check_snapshot(root, snap) if not X.running else []
     return {"model": [render(root, exmap), log], "delivered": delivered, "lost": lost, "pending": len(c.pending()),
-            "xpath": xpath, "running": bool(X.running), "failed": bool(X.failed)}
+            "xpath": xpath, "running": bool(X.running), "failed": bool(X.failed), "recs": recs}
+
+
+# =========================================================================== model
+def op_coq(op):
+    if op[0] == "set":
+        return f"OSet {cs(op[1])} {cz(op[2])}"
+    return {"run": "ORun", "complete": "OComplete", "clear": "OClear"}[op[0]]
+
+
+def model_term(case):
+    heap = case.get("_heap")
+    if heap is None or not modelled(case):
+        return None
+    if case["kind"] == "flow":
+        return f"flow_obs AsWritten {heap} 0%nat {cb(bool(case.get('probe')) and not is_real(case))}"
+    return f"cycle_obs AsWritten {heap} 0%nat {cn(case['_target'])} {cl(op_coq(o) for o in case['ops'])}"
+
+
+def modelled(case):
+    if any(k["t"] == "for" for k in case["kids"]):
+        return False
+    if case["kind"] == "cycle" and resubmits_merged(case):
+        return False
+    return True
+
+
+def resubmits_merged(case):
+    """a composite that came back across a pickle boundary is submitted again (outside the modelled domain
+    unless it has a parent: then pickling at submit raises, which the model reproduces)"""
+    kid = case["kids"][case["target"]]
+    if kid["t"] == "leaf" or kid.get("ex") not in BOUNDARY or not case.get("parentless"):
+        return False
+    merged, out = False, False
+    for op in case["ops"]:
+        if op[0] == "run" and not out:
+            if merged:
+                return True
+            out = True
+        elif op[0] == "complete" and out:
+            out = False
+            merged = True       # over-approximation (a failed completion does not merge): such cases stay impl-only
+    return False
+
+
+# =========================================================================== what the case says was sent where
+INNER = {"MA": {"a": "leaf", "b": "leaf"},
+         "MB": {"p": "leaf", "q": "leaf", "x": "leaf"},
+         "MC": {"p": "leaf", "q": "leaf", "inner": "macro", "inner/a": "leaf", "inner/b": "leaf"},
+         "MD": {"a": "leaf", "b": "leaf"},
+         "MF": {"inner": "macro", "inner/a": "leaf", "inner/b": "leaf"},
+         "ME": {"r": "leaf", "deep": "macro", "deep/p": "leaf", "deep/q": "leaf", "deep/inner": "macro",
+                "deep/inner/a": "leaf", "deep/inner/b": "leaf"}}
+INSTR = ("ipb", "ithread", "icproc")
+
+
+def placements(case):
+    """[(path, spec, is composite)] as written in the case"""
+    out = []
+    if case["kind"] == "flow" and case.get("root_ex"):
+        out.append(("/wf", case["root_ex"], True))
+    for i, kid in enumerate(case["kids"]):
+        base = "/n0" if case.get("parentless") else f"/wf/n{i}"
+        if kid.get("ex"):
+            out.append((base, kid["ex"], kid["t"] != "leaf"))
+        for rel, spec in sorted((kid.get("inner") or {}).items()):
+            out.append((base + "/" + rel, spec, INNER[kid["cls"]][rel] == "macro"))
+    return out
+
+
+def effective(case):
+    """placements that really put the node on an executor: a live executor instance below a node that is
+    shipped across a pickle boundary is dropped by Runnable.__getstate__, instructions survive"""
+    pl = sorted(placements(case), key=lambda p: p[0].count("/"))
+    eff = []
+    for path, spec, comp in pl:
+        shipped_above = any(path.startswith(q + "/") and s in BOUNDARY for q, s, c in eff)
+        if not shipped_above or spec in INSTR:
+            eff.append((path, spec, comp))
+    return eff
+
+
+def merged_composites(case):
+    """composites that come back as a copy and are merged (locally or, nested, on the far side)"""
+    return [(p, s) for p, s, comp in effective(case) if comp and s in BOUNDARY]
+
+
+def crossing(case):
+    return [(p, s) for p, s, comp in effective(case) if s in BOUNDARY]
+
+
+LINKED = {("MF", "inner"): ("in", "out"), ("ME", "deep"): ("in",)}     # nested macros value-linked to their parent's IO
+
+
+def linked_merged(case):
+    """[(path of the parent macro, path of the merged nested macro, link directions)]"""
+    merged = {p for p, s in merged_composites(case)}
+    out = []
+    for i, kid in enumerate(case["kids"]):
+        if kid["t"] != "macro":
+            continue
+        base = "/n0" if case.get("parentless") else f"/wf/n{i}"
+        for (cls, rel), dirs in LINKED.items():
+            if kid["cls"] == cls and base + "/" + rel in merged:
+                out.append((base, base + "/" + rel, dirs))
+    return out
+
+
+def under(path, roots):
+    return any(path == r or path.startswith(r + "/") for r in roots)
+
+
+# =========================================================================== oracle
+LOW = ("path", "owner", "lock-wf", "lock-merged", "resubmit", "for-connections", "after-pickle", "after-rerun",
+       "nested-result")     # signatures that a recorded finding may explain: reported last
+
+
+def structure_violations(r, path, out):
+    """on the rendered live graph: ownership, liveness + mutuality of every connection, adoption, flags, paths"""
+    label, kind, flags, exid, parent_ok, path_ok, detached, chans, kids, starting = r
+    if not parent_ok:
+        out.append(("adoption", f"{path}: parent is not the composite that holds it", path))
+    if path_ok != 1:
+        out.append(("path", f"{path}: lexical path {'raises' if path_ok == 0 else path_ok}", path))
+    if flags[0]:
+        out.append(("left-running", f"{path} is still running", path))
+    for row in chans:
+        pc, clabel, owner_ok, conns = row[0], row[1], row[2], row[3]
+        if not owner_ok:
+            out.append(("owner", f"{path}.{clabel}: the channel in the node's panel is owned by another object", path))
+        for c in conns:
+            if c[0] == "DEAD":
+                out.append(("dangling", f"{path}.{clabel} is connected to a channel that is not in any live panel", path))
+            elif c[3] != 1:
+                out.append(("one-sided", f"{path}.{clabel} -> {c[0]}.{c[2]}: the partner lists this channel {c[3]}x", path))
+        if len(row) > 5 and isinstance(row[5], list) and row[5] and row[5][0] == "DEAD":
+            out.append(("dangling", f"{path}.{clabel}: value receiver is not a live channel", path))
+    for k in kids:
+        structure_violations(k, path + "/" + k[0], out)
+
+
+def violations(case, obs):
+    out = []
+    if not isinstance(obs, dict):
+        return [("crash", f"driver observation {obs}", None)]
+    tree = obs["model"][0]
+    root_path = "/" + tree[0]
+    if case["kind"] == "flow":
+        res = obs["res"]
+        if res[0] == "err":
+            out.append(("raised", f"run() raised {res[1]}", None))
+        if res[0] == "future" and res[1] != "ok":
+            out.append(("raised", "the future of the root finished with an exception", None))
+        ref = obs["ref"]
+        if ref[0] != "ok":
+            out.append(("crash", f"reference (all-local) run raised {ref[0]}", None))
+        if obs["values"] != ref[1]:
+            a, b = dict((p, v) for p, v in ref[1]), dict((p, v) for p, v in obs["values"])
+            bad = sorted(p for p in set(a) | set(b) if a.get(p) != b.get(p))
+            out.append(("wrong-output", f"outputs differ from the all-local run at {bad[:4]}", bad[0] if bad else None))
+        if not is_real(case) and obs["calls"] != ref[2]:
+            out.append(("not-once", f"function calls {obs['calls']} vs all-local {ref[2]}", None))
+        for path, what in obs["lost"]:
+            sig = "for-connections" if under(path, [p for p, s in merged_for(case)]) else "lost"
+            out.append((sig, f"{path} lost {what}", path))
+        if obs["pending"]:
+            out.append(("left-running", f"{obs['pending']} job(s) never completed", None))
+        for path, label, r in obs["model"][1]:
+            if r != "RuntimeError":
+                sig = "lock-wf" if path == "/wf" else "lock"
+                out.append((sig, f"assignment to input {label} of {path} accepted while it is out", path))
+        for a in obs["after"]:
+            if a[0] == "pickle" and a[1] != "ok":
+                out.append(("after-pickle", f"pickling the workflow after the run raises {a[1]}", None))
+            if a[0] == "rerun":
+                if a[1] != "ok":
+                    out.append(("after-rerun", f"running the workflow again raises {a[1]}", None))
+                elif a[2] != ref[1]:
+                    out.append(("after-rerun", "the second run's outputs differ from the all-local run", None))
+        failed = []
+        collect_failed(tree, root_path, failed)
+        for p in failed:
+            out.append(("failed", f"{p} ended failed", p))
+    else:
+        log = obs["model"][1]
+        x = case["kids"][case["target"]]
+        x_merges = x["t"] != "leaf" and x.get("ex") in BOUNDARY
+        merged, stuck, k = False, False, 0
+        run_before, failed_before = False, False
+        for op, r, rec in zip(case["ops"], log, obs["recs"]):
+            out_before, running, failed, pending = rec
+            low = merged or stuck
+            if op[0] == "set":
+                if out_before and r != "RuntimeError":
+                    out.append(("lock-merged" if low else "lock",
+                                f"assignment to input {op[1]} accepted while the node is out", obs["xpath"]))
+                if not out_before and r != "ok":
+                    out.append(("resubmit" if stuck else "stuck-lock",
+                                f"assignment to input {op[1]} refused ({r}) while no job is out", obs["xpath"]))
+            elif op[0] == "run":
+                if out_before:
+                    if r not in ("RuntimeError", "ReadinessError"):
+                        out.append(("double-run", f"run() while out gave {r}", obs["xpath"]))
+                elif failed_before or stuck:
+                    if r not in ("ReadinessError", "RuntimeError"):
+                        out.append(("failed-run", f"run() of a failed node gave {r}", obs["xpath"]))
+                elif r not in ("Future", "value"):
+                    out.append(("resubmit" if merged else "raised", f"run() raised {r}", obs["xpath"]))
+                    stuck = stuck or running
+                elif (r == "Future") != (pending > 0):
+                    out.append(("raised", f"run() returned {r} with {pending} job(s) out", obs["xpath"]))
+            elif op[0] == "complete":
+                if out_before:
+                    ok, shown, expect = obs["delivered"][k]
+                    k += 1
+                    if running:
+                        out.append(("left-running", "still running after its job completed", obs["xpath"]))
+                    if ok and shown != expect:
+                        out.append(("stale", f"delivered outputs {shown} do not belong to the inputs shown "
+                                             f"(a local run gives {expect})", obs["xpath"]))
+                    if not ok and not (isinstance(expect, list) and expect and expect[0] == "raises"):
+                        out.append(("lock-merged" if low else "spurious-failure",
+                                    "the job failed although a local run on the inputs shown succeeds", obs["xpath"]))
+                    if ok and x_merges:
+                        merged = True
+            failed_before = failed
+        for path, what in obs["lost"]:
+            out.append(("lost", f"{path} lost {what}", path))
+        if obs["running"] and not obs["pending"] and not stuck:
+            out.append(("left-running", "the node is running but no job is out", obs["xpath"]))
+    sv = []
+    structure_violations(tree, root_path, sv)
+    if case["kind"] == "cycle" and obs["running"]:
+        sv = [v for v in sv if not (v[0] == "left-running" and v[2] == obs["xpath"])]     # judged above
+    out.extend(sv)
+    out.sort(key=lambda v: v[0] in LOW)
+    return out
+
+
+def collect_failed(r, path, acc):
+    if r[2][1]:
+        acc.append(path)
+    for k in r[8]:
+        collect_failed(k, path + "/" + k[0], acc)
+
+
+def merged_for(case):
+    fors = {f"/wf/n{i}" for i, k in enumerate(case["kids"]) if k["t"] == "for"}
+    return [(p, s) for p, s in merged_composites(case) if p in fors]
+
+
+def oracle(case, obs):
+    v = violations(case, obs)
+    if not v:
+        return None
+    sig, msg, subject = v[0]
+    return f"{sig}: {msg} [subject={subject}]"
+
+
+# =========================================================================== known findings (cause predicates)
+def known(case, obs, verdict):
+    sig = verdict.split(":")[0]
+    subject = verdict.rsplit("[subject=", 1)[1].rstrip("]") if "[subject=" in verdict else "None"
+    merged = [p for p, s in merged_composites(case)]
+    with_parent = [p for p in merged if p.count("/") >= 2]                      # everything but the root
+    not_for = [p for p in merged if p not in [q for q, s in merged_for(case)]]
+    # a composite merged on the FAR side (instructions below a shipped composite) has a parent there: the far side
+    # cannot pickle its result, the shipped composite fails as a whole
+    tops = [q for q, s in crossing(case) if not any(q.startswith(r + "/") for r, s2 in crossing(case))]
+    nested_tops = sorted({q for q in tops for p in merged if p.startswith(q + "/")})
+    if nested_tops:
+        if sig == "raised" and subject == "None" and "/wf" in nested_tops:
+            return "S15-detached-path-kept"
+        if sig in ("failed", "wrong-output", "not-once") and (under(subject, nested_tops) or subject == "None"):
+            return "S15-detached-path-kept"
+    if nested_tops and case["kind"] == "cycle" and sig in ("spurious-failure", "failed"):
+        return "S15-detached-path-kept"
+    links = linked_merged(case)
+    if sig == "dangling" and "value receiver" in verdict and subject in [a for a, b, d in links]:
+        return "C10-value-links-to-merged-node-lost"
+    if any("out" in d for a, b, d in links) and sig in ("wrong-output", "raised", "failed", "not-once", "stale",
+                                                        "after-rerun", "spurious-failure"):
+        return "C10-value-links-to-merged-node-lost"
+    if sig == "path" and under(subject, with_parent):
+        return "S15-detached-path-kept"
+    if sig in ("after-pickle", "resubmit") and with_parent:
+        return "S15-detached-path-kept"
+    if sig == "owner" and subject in not_for:
+        return "C10-merged-io-owned-by-copy"
+    if sig in ("lock-merged", "after-rerun", "resubmit") and not_for:
+        return "C10-merged-io-owned-by-copy"
+    if sig == "lock-wf" and case.get("root_ex"):
+        return "C10-workflow-inputs-unlocked"
+    if sig == "for-connections" and merged_for(case):
+        return "C10-for-merge-drops-connections"
+    if sig in ("wrong-output", "dangling", "one-sided", "after-rerun") and merged_for(case):
+        return "C10-for-merge-drops-connections"
+    return None
+
+
+# =========================================================================== generators
+MACRO_ARITY = {"MA": 1, "MB": 2, "MC": 2, "MD": 1, "ME": 2, "MF": 1}
+EMU = ["man", "pb", "pb", "ipb"]
+
+
+def gen_ins(rng, i, m, p_conn=0.6):
+    ins = []
+    for _ in range(m):
+        if i == 0 or rng.random() > p_conn:
+            ins.append(["c", rng.randint(0, 50)])
+        else:
+            ins.append(["n", rng.sample(range(i), min(i, rng.choice([1, 1, 1, 2])))])
+    return ins
+
+
+def gen_kid(rng, i, p_macro, p_ex, p_inner):
+    if rng.random() < p_macro:
+        cls = rng.choice(["MA", "MA", "MB", "MC", "MC", "MD", "ME", "MF"])
+        kid = {"t": "macro", "cls": cls, "ins": gen_ins(rng, i, MACRO_ARITY[cls]), "ex": None, "inner": {}}
+        for rel in sorted(INNER[cls]):
+            if rng.random() < p_inner:
+                kid["inner"][rel] = rng.choice(EMU)
+    else:
+        m = rng.choice([0, 1, 1, 2, 2, 3]) if i else rng.choice([0, 1, 2])
+        chk = m in (1, 2) and rng.random() < 0.3
+        kid = {"t": "leaf", "k": rng.randint(0, 99), "ins": gen_ins(rng, i, m), "ex": None}
+        if chk:
+            kid["chk"] = True
+    if rng.random() < p_ex:
+        kid["ex"] = rng.choice(EMU)
+    return kid
+
+
+def gen_flow(rng, nmax):
+    n = rng.randint(1, nmax)
+    p_ex = rng.choice([0.2, 0.5, 0.8])
+    p_inner = rng.choice([0.0, 0.0, 0.15, 0.3])
+    kids = [gen_kid(rng, i, rng.choice([0.3, 0.5]), p_ex, p_inner) for i in range(n)]
+    root = rng.choice([None, None, None, "pb", "ipb", "man"])
+    return {"kind": "flow", "kids": kids, "root_ex": root, "order": [rng.randint(0, 5) for _ in range(rng.randint(0, 6))],
+            "probe": rng.random() < 0.8}
+
+
+def input_labels(kid):
+    if kid["t"] == "leaf":
+        return ["k"] + nodes.ARG[:len(kid["ins"])]
+    return C().MACROS[kid["cls"]][1]
+
+
+def may_fail(kid):
+    return (kid["t"] == "leaf" and kid.get("chk")) or (kid["t"] == "macro" and kid["cls"] in ("MD", "ME"))
+
+
+def gen_cycle(rng):
+    parentless = rng.random() < 0.25
+    kids, t = [], 0
+    if not parentless and rng.random() < 0.6:
+        kids.append({"t": "leaf", "k": rng.randint(0, 9), "ins": [["c", rng.randint(0, 20)]], "ex": None})
+        t = 1
+    x = gen_kid(rng, t, 0.55, 0.0, 0.12)
+    if x["t"] == "leaf" and not x["ins"]:
+        x["ins"] = gen_ins(rng, t, 1)
+    x["ex"] = rng.choice(["pb", "pb", "pb", "ipb", "man", None])
+    if x["ex"] not in BOUNDARY:
+        x["inner"] = {} if x["t"] == "macro" else None
+    if x["t"] == "leaf":
+        x.pop("inner", None)
+    if parentless:
+        x["ins"] = [["c", i[1]] if i[0] == "c" else ["c", rng.randint(0, 20)] for i in x["ins"]]
+    kids.append(x)
+    if not parentless and rng.random() < 0.6:
+        kids.append({"t": "leaf", "k": rng.randint(0, 9), "ins": [["n", [t]]], "ex": None})
+    labels = input_labels(x)
+    neg_ok = x["ex"] in BOUNDARY and may_fail(x)
+    ops = []
+    for _ in range(rng.randint(3, 10)):
+        r = rng.random()
+        if r < 0.35:
+            lab = rng.choice(labels)
+            v = rng.randint(-4, -1) if (neg_ok and lab != "k" and rng.random() < 0.3) else rng.randint(0, 60)
+            ops.append(["set", lab, v])
+        elif r < 0.65:
+            ops.append(["run"])
+        elif r < 0.92:
+            ops.append(["complete"])
+        else:
+            ops.append(["clear"])
+    return {"kind": "cycle", "kids": kids, "target": t, "parentless": parentless, "ops": ops}
+
+
+def enumerate_small():
+    """sender s -> X -> receiver t with X a leaf / macro / nested macro, the three nodes, one inner node and the
+    root independently local / manual / pickle boundary, every completion order of the (at most three) jobs"""
+    cases = []
+    for xk in ({"t": "leaf", "k": 2, "ins": [["n", [0]]]}, {"t": "macro", "cls": "MA", "ins": [["n", [0]]]},
+               {"t": "macro", "cls": "MC", "ins": [["n", [0]], ["c", 2]]}):
+        inner_opts = [None] if xk["t"] == "leaf" else [None, "pb", "man"]
+        rel = {"MA": "b", "MC": "inner"}.get(xk.get("cls"))
+        for sx, xx, tx, ix, rx in itertools.product([None, "pb"], [None, "man", "pb", "ipb"], [None, "pb"], inner_opts,
+                                                     [None, "pb"]):
+            njobs = sum(1 for e in (sx, xx, tx, ix, rx) if e)
+            for order in ([[0]] if njobs <= 1 else [[0, 0], [1, 0], [1, 1]]):
+                x = dict(xk, ex=xx)
+                if xk["t"] == "macro":
+                    x["inner"] = {rel: ix} if ix else {}
+                cases.append({"kind": "flow", "kids": [{"t": "leaf", "k": 1, "ins": [["c", 3]], "ex": sx}, x,
+                                                       {"t": "leaf", "k": 5, "ins": [["n", [1]], ["n", [0, 1]]], "ex": tx}],
+                              "root_ex": rx, "order": order, "probe": True})
+    return cases
+
+
+def special_cases(ctx):
+    """For nodes across the boundary, follow-ups on the merged graph, real pools"""
+    base = [{"t": "leaf", "k": 1, "ins": [["c", 3]], "ex": None},
+            {"t": "macro", "cls": "MA", "ins": [["n", [0]]], "ex": "pb", "inner": {}},
+            {"t": "leaf", "k": 5, "ins": [["n", [1]]], "ex": None}]
+    out = [{"kind": "flow", "kids": base, "root_ex": None, "order": [], "probe": True, "after": ["pickle"]},
+           {"kind": "flow", "kids": base, "root_ex": None, "order": [], "probe": True, "after": ["rerun"]},
+           {"kind": "flow", "kids": [dict(base[0]), dict(base[1], ex="man"), dict(base[2])], "root_ex": None, "order": [],
+            "probe": True, "after": ["pickle", "rerun"]},
+           {"kind": "flow", "kids": [dict(base[0], ex="pb"), dict(base[2], ins=[["n", [0]]], ex="pb")], "root_ex": None,
+            "order": [], "probe": True, "after": ["pickle", "rerun"]}]
+    for ex in ("pb", "man", None):
+        out.append({"kind": "flow", "kids": [{"t": "leaf", "fn": "list", "k": 1, "ins": [["c", 3]], "ex": None},
+                                             {"t": "for", "k": 4, "ins": [["n", [0]]], "ex": ex},
+                                             {"t": "leaf", "fn": "sum", "k": 2, "ins": [["n", [1]]], "ex": None}],
+                    "root_ex": None, "order": [], "probe": False})
+    reals = ["thread", "cproc", "icproc"] if ctx.quick else ["thread", "proc", "cproc", "ithread", "icproc"]
+    for spec in reals:
+        out.append({"kind": "flow", "kids": [dict(base[0]), dict(base[1], ex=spec), dict(base[2])], "root_ex": None,
+                    "order": [], "probe": False})
+    if not ctx.quick:
+        for spec in ("thread", "proc", "cproc", "icproc"):
+            out.append({"kind": "flow", "kids": [dict(base[0], ex=spec), dict(base[1], ex=None), dict(base[2], ex=spec)],
+                        "root_ex": None, "order": [], "probe": False})
+            out.append({"kind": "flow", "kids": [dict(base[0]), dict(base[1], ex=None, cls="MC", ins=[["n", [0]], ["c", 1]],
+                                                                     inner={"inner": spec}), dict(base[2])],
+                        "root_ex": None, "order": [], "probe": False})
+            out.append({"kind": "flow", "kids": [dict(base[0]), dict(base[1], ex=None), dict(base[2])], "root_ex": spec,
+                        "order": [], "probe": False})
+    return out
+
+
+def generate(ctx):
+    rng = ctx.rng
+    out = special_cases(ctx)
+    for _ in range(ctx.n(260, 2500)):
+        out.append(gen_flow(rng, rng.choice([2, 3, 4]) if ctx.quick else rng.choice([2, 3, 4, 5])))
+    for _ in range(ctx.n(260, 2500)):
+        out.append(gen_cycle(rng))
+    if not ctx.quick:
+        out.extend(enumerate_small())
+    return out
+
+
+def corpus(ctx):
+    out = []
+    for p in sorted((lib.VERIF / "corpus" / PROP).glob("*.json")):
+        out.extend(json.loads(p.read_text()))
+    return out
+
+
+EXHAUSTIVE = {"quick": False, "thorough": True}
+
+
+def nontrivial(case, obs):
+    if crossing(case):
+        return True
+    if case["kind"] == "flow":
+        return bool(case.get("probe")) and bool(effective(case))
+    return any(o[0] == "set" for o in case["ops"]) and bool(effective(case))
+
+
+def key(case):
+    return {k: v for k, v in case.items() if not k.startswith("_")}
+
+
+def shrink_candidates(case):
+    def clean(c):
+        return {k: v for k, v in c.items() if not k.startswith("_")}
+    case = clean(case)
+    if case["kind"] == "cycle":
+        ops = case["ops"]
+        for i in range(len(ops)):
+            yield dict(case, ops=ops[:i] + ops[i + 1:])
+        x = case["kids"][case["target"]]
+        if x.get("inner"):
+            for rel in x["inner"]:
+                kids = [dict(k) for k in case["kids"]]
+                kids[case["target"]] = dict(x, inner={r: s for r, s in x["inner"].items() if r != rel})
+                yield dict(case, kids=kids)
+        if len(case["kids"]) > case["target"] + 1:
+            yield dict(case, kids=case["kids"][:-1])
+        return
+    kids = case["kids"]
+    n = len(kids)
+    used = {u for k in kids for inp in k["ins"] if inp[0] == "n" for u in inp[1]}
+    for d in reversed(range(n)):
+        if d not in used and n > 1:
+            new = []
+            for i, k in enumerate(kids):
+                if i == d:
+                    continue
+                ins = [["n", [u - (u > d) for u in inp[1]]] if inp[0] == "n" else inp for inp in k["ins"]]
+                new.append(dict(k, ins=ins))
+            yield dict(case, kids=new)
+    if case.get("root_ex"):
+        yield dict(case, root_ex=None)
+    if case.get("after"):
+        yield dict(case, after=[])
+    for i, k in enumerate(kids):
+        if k.get("ex"):
+            new = [dict(x) for x in kids]
+            new[i]["ex"] = None
+            yield dict(case, kids=new)
+        for rel in (k.get("inner") or {}):
+            new = [dict(x) for x in kids]
+            new[i]["inner"] = {r: s for r, s in k["inner"].items() if r != rel}
+            yield dict(case, kids=new)
+        for j, inp in enumerate(k["ins"]):
+            new = [dict(x, ins=[list(y) for y in x["ins"]]) for x in kids]
+            if inp[0] == "n" and len(inp[1]) > 1:
+                new[i]["ins"][j] = ["n", inp[1][:-1]]
+                yield dict(case, kids=new)
+            elif inp[0] == "n":
+                new[i]["ins"][j] = ["c", 1]
+                yield dict(case, kids=new)
+    if any(case.get("order", [])):
+        yield dict(case, order=[])
+
+
+def distribution(results):
+    import collections
+    d = collections.Counter()
+    for c, enc, v, o in results:
+        d[c["kind"]] += 1
+        for p, s, comp in effective(c):
+            d[f"sent:{'composite' if comp else 'leaf'}:{s}"] += 1
+        for p, s in merged_composites(c):
+            d["merged:" + ("root" if p == "/wf" else "nested" if p.count("/") > 2 else "child" if p.count("/") == 2 else "parentless")] += 1
+        if c["kind"] == "cycle":
+            d["cycle_ops"] += len(c["ops"])
+        if v:
+            d["oracle:" + v.split(":")[0]] += 1
+        if model_term(c) is None:
+            d["not_modelled"] += 1
+    return dict(sorted(d.items()))
